@@ -148,7 +148,9 @@ func genC16N(t *rapid.T, tier string) any {
 		case op == 3 && len(vars) > 0: // rename a use
 			e := gen.Pick(t, "use", vars)
 			c.Edit += "rename-use $" + e.Text + "; "
-			e.Text = "nosuch_" + e.Text
+			// a fresh name - or a name that means something else in the language (a built-in
+			// function, a type, a keyword): still not a declared variable
+			e.Text = gen.Pick(t, "edit.undeclared.name", []string{"nosuch_" + e.Text, "nosuch_" + e.Text, "balance", "meta", "overdraft", "set_tx_meta", "set_account_meta", "number", "kept", "remaining", "world"})
 		case op == 4 && len(s.Vars) > 0: // add a use (as a metadata value: any type is welcome there)
 			j := gen.Uniform(t, "adduse", len(s.Vars))
 			s.Stmts = append(s.Stmts, &gen.Stmt{Kind: gen.StCall, Call: &gen.Call{Fn: "set_tx_meta", Args: []*gen.Expr{gen.Str("extra"), gen.Var(s.Vars[j].Name)}}})
@@ -162,7 +164,7 @@ func genC16N(t *rapid.T, tier string) any {
 			s.Vars[j].Origin = &gen.Call{Fn: "meta", Args: []*gen.Expr{gen.Var(s.Vars[l].Name), gen.Str("k")}}
 			c.Edit += "use-before-declaration $" + s.Vars[l].Name + "; "
 		case op == 7: // a use duplicated into an extra argument of a call (declared or not)
-			name := "nosuch_extra"
+			name := gen.Pick(t, "edit.extra.name", []string{"nosuch_extra", "nosuch_extra", "balance", "set_tx_meta", "account", "max"})
 			if len(s.Vars) > 0 && gen.Chance(t, "extra.declared", 60) {
 				name = s.Vars[gen.Uniform(t, "extra.var", len(s.Vars))].Name
 			}
@@ -474,7 +476,7 @@ func genC17(t *rapid.T, tier string) any {
 			}
 		case 4: // undeclared variable
 			e := gen.Pick(t, "slot", slots)
-			*e = *gen.Var("undeclared")
+			*e = *gen.Var(gen.Pick(t, "c17.undeclared.name", []string{"undeclared", "undeclared", "balance", "meta", "overdraft", "set_tx_meta", "set_account_meta", "monetary", "source", "allowing"}))
 			c.Edit += "undeclared-variable; "
 		case 5: // mis-declared variable: change the declared type, keep a value of the new type
 			if len(s.Vars) > 0 {
